@@ -6,6 +6,7 @@ import (
 	"fmt"
 	"os"
 	"path/filepath"
+	"sort"
 	"sync"
 	"sync/atomic"
 	"time"
@@ -526,13 +527,9 @@ func (m *Manager) ReloadSSTables() error {
 		return fmt.Errorf("failed to read SSTable directory: %w", err)
 	}
 
-	// Open all SSTable files
-	for _, entry := range entries {
-		if entry.IsDir() || filepath.Ext(entry.Name()) != ".sst" {
-			continue // Skip directories and non-SSTable files
-		}
-
-		path := filepath.Join(m.sstableDir, entry.Name())
+	// Open all SSTable files, oldest data first (see loadSSTables)
+	for _, name := range m.sstableNamesOldestFirst(entries) {
+		path := filepath.Join(m.sstableDir, name)
 		reader, err := sstable.OpenReader(path)
 		if err != nil {
 			return fmt.Errorf("failed to open SSTable %s: %w", path, err)
@@ -850,14 +847,11 @@ func (m *Manager) loadSSTables() error {
 		return fmt.Errorf("failed to read SSTable directory: %w", err)
 	}
 
-	// Loop through all entries
-	for _, entry := range entries {
-		if entry.IsDir() || filepath.Ext(entry.Name()) != ".sst" {
-			continue // Skip directories and non-SSTable files
-		}
-
+	// Loop through all entries, oldest data first: reads search the list from
+	// its end, so the newest table has to come last
+	for _, name := range m.sstableNamesOldestFirst(entries) {
 		// Open the SSTable
-		path := filepath.Join(m.sstableDir, entry.Name())
+		path := filepath.Join(m.sstableDir, name)
 		reader, err := sstable.OpenReader(path)
 		if err != nil {
 			return fmt.Errorf("failed to open SSTable %s: %w", path, err)
@@ -868,6 +862,61 @@ func (m *Manager) loadSSTables() error {
 	}
 
 	return nil
+}
+
+// sstableNamesOldestFirst returns the SSTable file names of a directory
+// listing ordered from the oldest data to the newest: deeper levels hold older
+// data than shallower ones, and within a level the creation timestamp (then the
+// file number) in the name decides - the plain name order does not, because
+// file numbers restart and level-0 files sort before the older deeper levels.
+// It also moves the file counter past every number already in use.
+func (m *Manager) sstableNamesOldestFirst(entries []os.DirEntry) []string {
+	type tableName struct {
+		name      string
+		level     int
+		fileNum   uint64
+		timestamp int64
+		parsed    bool
+	}
+
+	var names []tableName
+	for _, entry := range entries {
+		if entry.IsDir() || filepath.Ext(entry.Name()) != ".sst" {
+			continue // Skip directories and non-SSTable files
+		}
+
+		t := tableName{name: entry.Name()}
+		if n, err := fmt.Sscanf(entry.Name(), sstableFilenameFormat, &t.level, &t.fileNum, &t.timestamp); n == 3 && err == nil {
+			t.parsed = true
+			if t.fileNum >= atomic.LoadUint64(&m.nextFileNum) {
+				atomic.StoreUint64(&m.nextFileNum, t.fileNum+1)
+			}
+		}
+		names = append(names, t)
+	}
+
+	sort.SliceStable(names, func(i, j int) bool {
+		a, b := names[i], names[j]
+		if a.parsed != b.parsed {
+			return !a.parsed // names we cannot interpret rank as oldest
+		}
+		if !a.parsed {
+			return a.name < b.name
+		}
+		if a.level != b.level {
+			return a.level > b.level
+		}
+		if a.timestamp != b.timestamp {
+			return a.timestamp < b.timestamp
+		}
+		return a.fileNum < b.fileNum
+	})
+
+	result := make([]string, 0, len(names))
+	for _, t := range names {
+		result = append(result, t.name)
+	}
+	return result
 }
 
 // recoverFromWAL recovers memtables from existing WAL files
